@@ -731,6 +731,39 @@ func runC14Third(c *Ctx) {
 			c.check(read[fld], "C14.canonical-empty", "IsEmpty examines "+fld, f.Pos(), "read", "IsEmpty does not look at "+fld+": an account whose only content is that field is treated as absent and never reaches the trie, while it stays observable through the cache")
 		}
 	}
+	// GetSnapshot takes the object graph from objCache, not from the field: a decoded graph must be
+	// registered there, or the next snapshot of a loaded contract account silently loses it
+	if f := c.mustFn(pkg, "accountSnapshotImpl", "RLPDecodeSelf"); f != nil {
+		n := 0
+		for _, cs := range c.calls(f, byMethod("Decode")) {
+			_, a := callArgs(cs.Common())
+			isG := false
+			for _, x := range a {
+				if strings.HasSuffix(render(x), "$r.objGraph") || strings.HasSuffix(render(x), "$r.accountData.objGraph") {
+					isG = true
+				}
+			}
+			if !isG {
+				continue
+			}
+			n++
+			_, skip := pathAvoiding(f, cs.Instr, func(in ssa.Instruction) bool {
+				r, ok := in.(*ssa.Return)
+				return ok && len(r.Results) == 1 && isNilConst(r.Results[0])
+			}, func(in ssa.Instruction) bool {
+				cl, ok := in.(*ssa.Call)
+				if !ok || methodName(cl.Common()) != "Set" {
+					return false
+				}
+				r, _ := callArgs(cl.Common())
+				return r != nil && strings.HasSuffix(render(r), "objCache")
+			})
+			c.check(!skip, "C14.cache-pair", "a decoded object graph is registered in objCache before RLPDecodeSelf succeeds", cs.Pos(), "objCache.Set on every path to return nil", "RLPDecodeSelf can succeed with a decoded object graph that is not in objCache: GetSnapshot rebuilds the graph from the cache, so a loaded contract account loses its object graph (and its hash changes) as soon as it is touched")
+		}
+		if n == 0 {
+			c.undecided("C14.cache-pair", "RLPDecodeSelf", f.Pos(), "no Decode(&s.objGraph)")
+		}
+	}
 	if f := c.mustFn(pkg, "accountStateImpl", "Clear"); f != nil {
 		av, okV := c.constVal(pkg, "AccountVersion")
 		n := 0
